@@ -133,8 +133,8 @@ pub fn amt_to_forward_msat(
     r is Some ==> r->Some_0 > 0 && r->Some_0 as int + relay_fee(r->Some_0 as int, payment_relay) <= inbound_amt_msat,
  {
 	let inbound_amt = inbound_amt_msat as u128;
-	let base = payment_relay.fee_base_msat as u128;
 	let prop = payment_relay.fee_proportional_millionths as u128;
+	let base = payment_relay.fee_base_msat as u128;
 
 	let post_base_fee_inbound_amt = inbound_amt.checked_sub(base)?;
 	let fee_for = |amt_to_forward: u128| -> (o: u128)
